@@ -243,8 +243,9 @@ class Gen(object):
         if k == 's':
             return scene.ScaleTransform(v(), v(), v())
         if k == 'r':
-            ax = r.choice([(1.0, 0.0, 0.0), (0.0, 1.0, 0.0), (0.0, 0.0, 1.0), (0.6, 0.8, 0.0), (0.0, -0.6, 0.8)])
-            return scene.RotateTransform(ax[0], ax[1], ax[2], float(r.choice([0, 90, 180, -90, 45, 30, 270, 12.5])))
+            ax = r.choice([(1.0, 0.0, 0.0), (0.0, 1.0, 0.0), (0.0, 0.0, 1.0), (0.6, 0.8, 0.0), (0.0, -0.6, 0.8)] +
+                          ([] if self.o['schema'] or not self.o.get('anyaxis') else [(1.0, 1.0, 0.0), (0.0, 2.0, 0.0), (0.5, 0.0, 0.0)]))
+            return scene.RotateTransform(ax[0], ax[1], ax[2], float(r.choice([0, 90, 180, -90, 45, 30, 270, 12.5, 5, 10, 20, 37.5, 150, 33.3, round(r.uniform(-360, 360), 2)])))
         if k == 'm':
             return scene.MatrixTransform(numpy.array([float(r.randint(-3, 3)) for _ in range(12)] + [0.0, 0.0, 0.0, 1.0], dtype=numpy.float32))
         while True:
